@@ -53,6 +53,10 @@ func (c *c17) Cases(tier string, seed int64) []core.Case {
 		cs = append(cs, core.MkCase(fmt.Sprintf("par2-defaults-%d", i), c17Params{r.Int63(), "par2-defaults"}))
 		cs = append(cs, core.MkCase(fmt.Sprintf("par1-defaults-%d", i), c17Params{r.Int63(), "par1-defaults"}))
 		cs = append(cs, core.MkCase(fmt.Sprintf("par2-empty-file-%d", i), c17Params{r.Int63(), "par2-empty-file"}))
+		for _, h := range encoderHistories {
+			cs = append(cs, core.MkCase(fmt.Sprintf("par2-encoder-%s-%d", h, i), c17Params{r.Int63(), "par2-encoder:" + h}))
+			cs = append(cs, core.MkCase(fmt.Sprintf("par1-encoder-%s-%d", h, i), c17Params{r.Int63(), "par1-encoder:" + h}))
+		}
 	}
 	return cs
 }
@@ -268,6 +272,12 @@ func (c *c17) Run(cs core.Case) core.Result {
 	core.Decode(cs, &p)
 	r := core.NewR(cs)
 	rng := rand.New(rand.NewSource(p.Seed))
+	if strings.Contains(p.Fmt, "-encoder:") {
+		// <format>-encoder:<history>
+		i := strings.Index(p.Fmt, "-encoder:")
+		encoderHistoryDifferential(r, p.Fmt[:i], p.Fmt[i+9:], "create-output-varies|encoder-reuse", rng)
+		return r.Done()
+	}
 	if p.Fmt == "par2-defaults" || p.Fmt == "par1-defaults" || p.Fmt == "par2-empty-file" {
 		c.runOutcomes(r, p, rng)
 		return r.Done()
